@@ -46,7 +46,8 @@ type J = map[string]interface{}
 
 // Spec is the input of one execution: graph contents as triple texts, the statement text and the configuration.
 type Spec struct {
-	Graphs   [][]string `json:"graphs"` // graph i is named ?g<i>
+	Graphs   [][]string `json:"graphs"` // graph i is named Names[i], by default ?g<i>
+	Names    []string   `json:"names,omitempty"`
 	Query    string     `json:"query"`
 	Pre      []string   `json:"pre,omitempty"` // statements executed before Query on the same store (results discarded)
 	ChanSize int        `json:"chan"`
@@ -190,11 +191,18 @@ func canon(v interface{}) string {
 	return string(b)
 }
 
-func buildStore(ctx context.Context, graphs [][]string) (storage.Store, []interface{}, error) {
+func graphName(names []string, i int) string {
+	if i < len(names) {
+		return names[i]
+	}
+	return fmt.Sprintf("?g%d", i)
+}
+
+func buildStore(ctx context.Context, graphs [][]string, names ...string) (storage.Store, []interface{}, error) {
 	st := memory.NewStore()
 	var dump []interface{}
 	for i, g := range graphs {
-		gr, err := st.NewGraph(ctx, fmt.Sprintf("?g%d", i))
+		gr, err := st.NewGraph(ctx, graphName(names, i))
 		if err != nil {
 			return nil, nil, err
 		}
@@ -320,11 +328,16 @@ func execute(ctx context.Context, st storage.Store, stm *semantic.Statement, sp 
 func runSpec(sp Spec) J {
 	ctx := context.Background()
 	out := J{"query": sp.Query, "cfg": J{"chan": sp.ChanSize, "bulk": sp.BulkSize, "procs": sp.Procs}, "graph_texts": sp.Graphs}
-	st, dump, err := buildStore(ctx, sp.Graphs)
+	st, dump, err := buildStore(ctx, sp.Graphs, sp.Names...)
 	if err != nil {
 		out["result"] = J{"kind": "harness", "msg": err.Error()}
 		return out
 	}
+	gn := make([]string, len(sp.Graphs))
+	for i := range gn {
+		gn[i] = graphName(sp.Names, i)
+	}
+	out["graph_names"] = gn
 	out["graphs"] = dump
 	// a sequence of statements on the same store: the earlier ones only warm whatever the store or the planner keeps
 	for _, pq := range sp.Pre {
@@ -428,8 +441,13 @@ func runChild(sp Spec) J {
 	// describe the case in this process without executing it
 	out := J{"query": sp.Query, "cfg": J{"chan": sp.ChanSize, "bulk": sp.BulkSize, "procs": sp.Procs}, "graph_texts": sp.Graphs, "child": true}
 	ctx := context.Background()
-	_, dump, _ := buildStore(ctx, sp.Graphs)
+	_, dump, _ := buildStore(ctx, sp.Graphs, sp.Names...)
 	out["graphs"] = dump
+	gn := make([]string, len(sp.Graphs))
+	for i := range gn {
+		gn[i] = graphName(sp.Names, i)
+	}
+	out["graph_names"] = gn
 	if stm, _ := parse(sp.Query); stm != nil {
 		describe(out, stm)
 	}
